@@ -7,7 +7,7 @@ Local Open Scope Z_scope.
 Definition res_code (r : res) : Z :=
   match r with ROk => 0 | ROom => 1 | RInvalidSize => 2 | RTypeErr => 3 | RPanic => 5 | RAbort => 6 end.
 
-Inductive hop := OArray (esz : N) | OVecPush | OVecReserve | OManual | OBytes | ORepeat (slen : N) | OPad (left : bool) (slen : N)
+Inductive hop := OArray (esz : N) | OVecPush | OVecReserve | OManual | OBytes | ORepeat (slen : N) | OPad (slen : N)
                | OConcatDouble (slen : N).
 
 (* one case: operation, size argument, limit, host capacity, heap + manual bytes in use when the operation starts.
@@ -22,7 +22,7 @@ Definition hl_run1 (cap : N) (o : hop) (n : Z) (limit used0 : N) : list Z :=
   | OManual => let '(r, m', _) := op_manual m n in out r m'
   | OBytes => let '(r, m', _) := op_bytes cap m n in out r m'
   | ORepeat sl => if n =? 1 then [0; 0] else let '(r, m', _) := op_repeat cap m sl n in out r m'
-  | OPad lf sl => let '(r, m', _) := op_pad lf cap m sl n in out r m'
+  | OPad sl => let '(r, m', _) := op_pad cap m sl n in out r m'
   | OConcatDouble sl => let '(r, m') := concat_double (Z.to_nat n) m sl in out r m'
   end.
 
